@@ -61,6 +61,22 @@ def run_scss(src, profile="dev", compressed=False):
     return {"outcome": "crash", "message": f"exit {p.returncode}: {p.stderr[-300:]}"}
 
 
+def run_threads(src, profile="dev"):
+    """The same stylesheet compiled on the main thread and on two more threads (sequentially) -> list of three outputs."""
+    exe = build(profile)
+    try:
+        p = subprocess.run([exe, "--scss-threads", src], capture_output=True, text=True, timeout=120)
+    except subprocess.TimeoutExpired:
+        return None
+    for line in p.stdout.split("\n"):
+        if line.strip().startswith("{"):
+            try:
+                return json.loads(line)["message"].split("\u0001")
+            except (ValueError, KeyError):
+                pass
+    return None
+
+
 def run_api(entry, style, precision, arg, profile="dev"):
     """One library entry point (value | scss | path | transform) with an explicit output format."""
     exe = build(profile)
@@ -113,7 +129,7 @@ def replay_both(harness, values, features=()):
     return {"dev": dev, "release": rel, "reproduced": reproduced}
 
 
-def run_files(files, entry, profile="dev", compressed=False, fail_lookup=None):
+def run_files(files, entry, profile="dev", compressed=False, fail_lookup=None, fail_read=None):
     """Write `files` ({relative name: text}) to a scratch directory and compile `entry` from disk."""
     import shutil
     import tempfile
@@ -126,7 +142,9 @@ def run_files(files, entry, profile="dev", compressed=False, fail_lookup=None):
             with open(p, "w") as f:
                 f.write(text)
         try:
-            if fail_lookup is not None:
+            if fail_read is not None:
+                cmd = [exe, "--scss-fail-read", d, entry, str(fail_read)]
+            elif fail_lookup is not None:
                 cmd = [exe, "--scss-fail-lookup", d, entry, str(fail_lookup)]
             else:
                 cmd = [exe, "--scss-file-compressed" if compressed else "--scss-file", os.path.join(d, entry)]
